@@ -34,7 +34,10 @@ EXPLANATION = (
     "`scores` is dominated by its recomputation; scorers' evaluate paths write no attribute; (d) NO-ARG-MUTATION - no store into "
     "an array the code did not allocate (views of X / cuts / fitted fields included, augmented assignment on arrays included) in "
     "drivers, scorers' fit/evaluate and detectors' fit/predict; (e) UPDATE-IS-REFIT - update stores X.combine_first(_X) and reaches "
-    "_fit(self._X, self._y); no detector overrides _update without that. Owned clones are decided under C06 and C17. NOT decided: "
+    "_fit(self._X, self._y); no detector overrides _update without that; (f) OWNED-FITTED-STATE - the one estimator whose predict consumes "
+    "a held estimator's fit-time state without refitting it (StatThresholdAnomaliser.change_detector_) owns an sktime clone of the "
+    "user's detector and never calls the user's object (C17.a re-run under this id); scorers held by reference are safe by (b). "
+    "Owned clones inside the cost adapters are decided under C06. NOT decided: "
     "sktime's clone/reset/set_params themselves (external model), numerical equality of combine_first+fit with fit on a "
     "concatenated frame (pandas)."
 )
@@ -64,8 +67,33 @@ def check(ctx):
     ctx.guard("C10.d NO-ARG-MUTATION", "costs-fixed", lambda: check_cost_fixed_mutation(ctx))
     ctx.guard("C10.d NO-ARG-MUTATION", "detectors", lambda: check_detector_mutation(ctx))
     ctx.guard("C10.e UPDATE-IS-REFIT", "update", lambda: check_update(ctx, det_base))
+    ctx.guard("C10.f OWNED-FITTED-STATE", "anomaliser", lambda: owned_fitted_state(ctx))
     ctx.expect_min("C10.a HP-FROZEN", sum(1 for o in ctx.obs if o.rule == "C10.a HP-FROZEN" and o.status == "HOLDS"), 15)
     ctx.expect_min("C10.b REFIT-BEFORE-EVALUATE", sum(1 for o in ctx.obs if o.rule == "C10.b REFIT-BEFORE-EVALUATE" and o.status == "HOLDS"), 6)
+
+
+def owned_fitted_state(ctx):
+    """An estimator whose predict consumes the fit-time state of a *held* estimator without refitting it in the same call
+    (the scorers of the drivers are refitted: rule b) must own that object: the C17 CLONE-DISCIPLINE obligations, re-run under
+    the C10 id - the only such holder in the repository is StatThresholdAnomaliser.change_detector_."""
+    from . import c17
+
+    before = len(ctx.obs)
+    mins = dict(ctx.mins)
+    try:
+        c17.check(ctx)
+    except Undecided as u:
+        ctx.undecided("C10.f OWNED-FITTED-STATE", "anomaliser", "", str(u))
+    ctx.mins = mins
+    kept = []
+    for o in ctx.obs[before:]:
+        if o.status == "UNDECIDED" and o.key == "instance-count":
+            continue
+        if "CLONE-DISCIPLINE" in o.rule or o.status == "UNDECIDED":
+            o.rule = f"C10.f OWNED-FITTED-STATE ({o.rule})"
+            kept.append(o)
+    ctx.obs[before:] = kept
+    ctx.expect_min("C10.f OWNED-FITTED-STATE", len(kept), 2)
 
 
 # ---------------------------------------------------------------- effect facts
